@@ -26,6 +26,8 @@ RowPaths  == {"append", "insert", "extend", "iadd", "setitem",
               "copy_append", "copy_setitem"}                               \* the store goes to a deep copy of the grid
 MetaPaths == {"meta_set", "meta_append", "meta_extend", "colmeta_set", "colmeta_append", "col_assign", "col_add_item",
               "copy_meta_set", "copy_colmeta_set", "copy_col_assign",
+              \* the column was handed over as a plain dict / a fresh metadata object first, the tag is stored afterwards
+              "colmeta_set_assigned", "colmeta_set_assigned_mo", "colmeta_append_reassigned",
               "meta_overwrite", "colmeta_overwrite", "meta_update", "col_reassign"}   \* overwriting an existing tag / column
 CtorPaths == {"ctor_meta", "ctor_colmeta"}
 Paths == RowPaths \cup MetaPaths
